@@ -164,6 +164,7 @@ def run(cx, nsch=None, nnest=None, nfam=None):
         process(cx, all_schemas, cases[lo:lo + step], lo)
     classes(cx, origin)
     operations(cx, cases)
+    xpath_family(cx)
 
 
 def witness_f320(cx, cases):
@@ -206,6 +207,89 @@ def compiler_guarantee(cx):
 
 
 PRUNED = ("drop-mandatory", "drop-choice", "below-min")
+
+# ---- XPath-dependent constraints (must, leafref require-instance, when): op `valx` ---------------------------------------------
+# False: the model op `valx` (LyModel/Valid/XpValid.lean) is not wired yet, the family runs on libyang alone (modules compile, verdict
+# and error-kind mix, order law); True: token-for-token differential like `val`
+XP_MODEL = True
+# `when` statements in the family: off until the model's when hook is filled (LyModel/Valid/XpValid.lean)
+XP_WHEN = False
+XP_OPTS = [0, PRESENT, MULTI, OPER]
+XP_OLD_MUTATIONS = ["drop-mandatory", "dup-leaf", "bad-value", "above-max", "dup-key"]
+
+
+def xpath_family(cx, nsch=None, verbose=0):
+    """schemas of validgen.fam_xpath (1-3 must, 1-2 leafref): instances from the generator (leafrefs repaired to existing targets, musts
+    left to chance), each also with the mutations break-must / break-leafref and a few of the old ones.  The specification op does not
+    know these statements, so no iff / tag law here: the tie is the correspondence `valx` (same request line to harness and model)."""
+    rng = cx.sub_rng("xpath")
+    n = cx.n(6, 40) if nsch is None else nsch
+    per = cx.n(5, 15)
+    schemas, cases = [], []
+    for i in range(n):
+        s = vg.fam_xpath(rng, i, nwhen=(rng.randrange(0, 2) if XP_WHEN else 0))
+        s._origin = "xpath"
+        schemas.append(s)
+        r = cx.sub_rng("xinst%d" % i)
+        g = vg.XTreeGen(r, s, density=r.choice([0.7, 0.85, 0.95]), max_inst=r.choice([2, 3]))
+        mu = vg.Mutator(r, s, g)
+        for _ in range(per):
+            t = g.tree()
+            cases.append(Case(s, t, None, None, r))
+            for k in vg.XP_MUTATIONS + XP_OLD_MUTATIONS:
+                m = mu.mutate(t, k)
+                if m is not None:
+                    cases.append(Case(s, m[0], k, m[1], r))
+    lines = []
+    for k, c in enumerate(cases):
+        c.k = k
+        d, x = tg.hx(c.s.dsl()), tg.hx(c.s.xdsl())
+        for o in XP_OPTS:
+            lines.append("x%d.%d %s valx %s %s %d %s" % (k, o, COMP, d, x, o, tg.tok(c.t)))
+        lines.append("y%d.0 %s valx %s %s %d %s" % (k, COMP, d, x, 0, tg.tok(c.sh)))
+
+    def kind(line, reply):
+        return "valx:" + " ".join(reply[:2])
+    if XP_MODEL:
+        ri, rm = vc.differential(cx, HARNESS, schemas, lines, kind)
+    else:
+        ri = vc.run_impl(cx, HARNESS, schemas, lines)
+        for l in lines:
+            cx.count(" ".join(l.split()[2:]), True, kind(l, ri.get(l.split()[0], ["err", "NoReply"])))
+    for i, s in enumerate(schemas):
+        h = ri.get("S%d" % i, ["err", "NoReply"])
+        if h[0] != "ok":
+            cx.fail(COMP, "a schema of the xpath family does not compile: " + " ".join(h[:2]), dict(vc.schema_payload(s), law="xpath-compile"))
+    mix = collections.Counter()
+    for c in cases:
+        a = ri.get("x%d.0" % c.k, ["err", "NoReply"])
+        b = ri.get("y%d.0" % c.k, ["err", "NoReply"])
+        if a[0] == "ok" and b[0] == "ok" and a != b:
+            cx.fail(COMP, "the reply depends on the order in which the siblings were created", payload(c, "order", canonical=a[:6], scrambled=b[:6]))
+        for o in XP_OPTS:
+            r = ri.get("x%d.%d" % (c.k, o), ["err", "NoReply"])
+            if r[0] != "ok":
+                mix["%s: no reply (%s)" % (c.kind or "generated", " ".join(r[:2]))] += 1
+                continue
+            if o == MULTI and r[1] == "invalid":
+                for e in r[3:]:
+                    cx.dist["valx:error-kind:" + vc.dec_err(e)[0]] += 1
+            if o == 0:
+                res = "valid" if r[1] == "valid" else "build-error" if r[1] == "build" else first_err(r)[0]
+                mix["%s: %s" % (c.kind or "generated", res)] += 1
+                if verbose and c.k < verbose:
+                    print("---- sample %d (%s %s)\n%s\ninstance:\n%s\nrequest: %s\nreply: %s" % (
+                        c.k, c.kind, c.info, c.s.yang(), tg.pretty(c.s, c.t), [l for l in lines if l.startswith("x%d.0 " % c.k)][0][:400],
+                        " ".join(r)[:600]))
+            elif o == OPER:
+                cx.dist["valx:operational:" + r[1]] += 1
+    cnt = [vg.xp_counts(s) for s in schemas]
+    text = ("xpath family (%s): %d schemas with %d must, %d leafref (%d with a key predicate), %d when; %d instances; first error at option 0 "
+            "per origin of the instance: %s" % ("differential with the model op valx" if XP_MODEL else "libyang alone, model op not wired",
+                                                 len(schemas), sum(c[0] for c in cnt), sum(c[1] for c in cnt), sum(c[2] for c in cnt),
+                                                 sum(c[3] for c in cnt), len(cases), ", ".join("%s %d" % kv for kv in sorted(mix.items()))))
+    cx.rule(text)
+    print("C02 distribution: " + text)
 CLASSES = ["plain", "full-without-unique", "full"]
 
 
